@@ -11,6 +11,9 @@ var ErrOutOfTubes = errors.New("out of tube IDs")
 // ErrMuxerStopping indiates a new tube cannot be created because Muxer.Stop() has been called
 var ErrMuxerStopping = errors.New("muxer is stopping")
 
+// ErrAcceptQueueFull indicates that a remotely requested tube was refused because too many tubes are waiting for Accept
+var ErrAcceptQueueFull = errors.New("too many tubes waiting to be accepted")
+
 // ErrBadTubeState indicates an operation was performed when a tube was in a state where that operation is not valid
 var ErrBadTubeState = errors.New("tube in bad state")
 
